@@ -339,7 +339,8 @@ func (k Keeper) MoveTokensFromValidator(ctx context.Context, validator stakingty
 	switch {
 	case validator.IsBonded():
 		fromPool = stakingtypes.BondedPoolName
-	case validator.IsUnbonding():
+	case validator.IsUnbonding(), validator.IsUnbonded():
+		// the tokens of a validator that left the bonded set sit in the not-bonded pool, during and after its unbonding
 		fromPool = stakingtypes.NotBondedPoolName
 	default:
 		return fmt.Errorf("unknown validator status: %s", validator.GetStatus())
